@@ -551,6 +551,7 @@ class Generated(Contract):
                         if not any(f"'{val}_typo'" in s for s in iss):
                             bad = bad or (gname, nc, irf, f"misspelled reference {'/'.join(map(str, path))} = {val}_typo not reported: {iss}")
         out.append(self._mixed_kinds())
+        out.append(self._scheme_validity_follows_edits(M, generators))
         out.append({"name": "bounded_generator_models_single_reference_or_parameter_removed", "ok": bad is None, "case": f"{n} model/parameter variants of the generator models", "function": "Model.get_issues", "witness": None if bad is None else {"generator": bad[0], "compartments": bad[1], "irf": bad[2], "why": bad[3]}, "detail": "bounded stand-in: every generator model, each reference misspelled / parameter removed in turn"})
         return out
 
@@ -616,3 +617,48 @@ class Generated(Contract):
                     elif missing:
                         bad = bad or (cont, A.__name__, B.__name__, f"generated parameters leave issues: {missing[:3]}")
         return {"name": "bounded_parameter_labels_complete_for_mixed_item_classes_in_any_order", "ok": bad is None and n > 0, "case": f"{n} ordered pairs of item classes per container", "function": "Model.get_parameter_labels", "witness": None if bad is None else {"container": bad[0], "first": bad[1], "second": bad[2], "why": bad[3]}, "detail": "bounded stand-in: every ordered pair of builtin item classes of a container, labels distinct per item"}
+
+    def _scheme_validity_follows_edits(self, M, generators):
+        """B: `Scheme.valid()` / `Scheme.validate()` answer for the model and parameters *as they are now*: valid, then a
+        reference misspelled in place (invalid), then repaired (valid), then a parameter removed from a fresh parameter
+        set - on one Scheme object, compared with `Model.valid` / `Model.get_issues` at every step."""
+        import copy
+
+        import xarray as xr
+
+        from glotaran.parameter import Parameters
+        from glotaran.project import Scheme
+
+        bad, n = None, 0
+        for gname, gen in generators.items():
+            spec = gen(nr_compartments=2, irf=True)
+            model = M(**copy.deepcopy(spec))
+            params = model.generate_parameters()
+            scheme = Scheme(model=model, parameters=params, data={lab: xr.Dataset() for lab in model.dataset})
+            dm = next(iter(model.dataset.values()))
+            good = list(dm.megacomplex)
+            steps = []
+
+            def step(name):
+                nonlocal bad, n
+                n += 1
+                want = model.valid(scheme.parameters)
+                got = scheme.valid()
+                text_ok = ("Your model is valid." in str(scheme.validate())) == want
+                steps.append((name, got, want))
+                if got != want or not text_ok:
+                    bad = bad or (gname, f"after {name}: Scheme.valid() = {got}, validate() says valid = {text_ok == want and want}, Model.valid = {want}; history {steps}")
+
+            step("construction")
+            dm.megacomplex[0] = good[0] + "_typo"
+            step("megacomplex reference misspelled in place")
+            dm.megacomplex[0] = good[0]
+            step("reference repaired in place")
+            labels = sorted(model.get_parameter_labels())
+            scheme.parameters = Parameters({k: v for k, v in params._parameters.items() if k != labels[0]})
+            step("a parameter removed")
+            scheme.parameters = params
+            step("parameters restored")
+            if steps and [w for _, _, w in steps] != [True, False, True, False, True]:
+                bad = bad or (gname, f"harness: the edits did not change validity as intended: {steps}")
+        return {"name": "bounded_scheme_validity_answers_for_the_current_model_and_parameters", "ok": bad is None and n > 0, "case": f"{n} validity questions on {len(generators)} schemes edited in place", "function": "glotaran.project.scheme:Scheme.valid", "witness": None if bad is None else {"generator": bad[0], "why": bad[1]}, "detail": "bounded stand-in: histories of in-place edits on one Scheme object"}
